@@ -51,6 +51,12 @@ Theorem c14_integerise_monotone : forall med scale d1 d2, (0 <= scale)%Q -> (d1 
 Proof. exact integerise_monotone. Qed.
 Print Assumptions c14_integerise_monotone.
 
+(* on exactly recomputed cells the spec demands precisely x = floor((gamma - median)*scale + 1/2) *)
+Theorem c14_integerise_exact : forall med scale dist x,
+  int_cell_ok ((- dist - med) * scale, (- dist - med) * scale, x)%Q = (x =? integerise med scale dist).
+Proof. exact int_cell_exact. Qed.
+Print Assumptions c14_integerise_exact.
+
 (* the preconditions are satisfiable and the theorem is not vacuous: a 2-column query against
    targets of lengths 1, 3, 2 (one shorter, one longer, one equal), with a zero similarity *)
 Definition ex_call : call :=
